@@ -294,6 +294,24 @@ CLAIMED["C10"] = (
     "DESIGN.md §3 C10",
     "Partial claim (wiring of the rules, not the characters removed).")
 
+CLAIMED["C03"] = (
+    "borrowed structural clauses: path-sensitive typestate of the code generator (frames / captures / scopes / operand "
+    "balance), pairing rules of the interpreter, and the sibling cross-check tracker-vs-generator over the AST that decides "
+    "what macros enclose (all over MIR)",
+    "Static check of the SCOPING SKELETON of the core constructs only, by running the rules of C05 and the closure-related "
+    "rules of C18 as clauses: every frame / capture / auto-escape scope the code generator opens is closed on every path and "
+    "break / continue close what they leave (assignments inside loops, with-blocks, macros, blocks are invisible outside); "
+    "every statement leaves the operand stack as it found it; the interpreter's pairs are balanced on every path and nested "
+    "evaluations restore the state; the assignment tracker that computes macro closures mirrors the engine - pre-assigned "
+    "names (loop, caller) are bound where the engine binds them, tracker scopes end where frames end, every free name of a "
+    "macro is enclosed, statement lists that run only behind a conditional jump (if / elif / else bodies, for-else) are "
+    "walked in a scope of their own so that an assignment in an untaken branch does not hide an outer variable from a macro, "
+    "and the loop variable is resolved frame by frame.  NOT decided: rendered output as a function of run-time values - "
+    "loop.index / revindex / previtem / nextitem arithmetic, whether an else branch runs, macro argument binding, filters "
+    "and tests (no reference interpreter: that is another technique).",
+    "DESIGN.md §3 C03",
+    "Partial claim (scoping skeleton; the clauses are the checks of C05 / C18 under the prefixes C03.F: / C03.M:).")
+
 ROUND8 = {
     "C01": "(P17) an instruction operand the interpreter uses as an index fits the table it indexes: every value the code generator can store at that payload position is a constant below the table's length (or one the consumer excludes itself), or a cast of a quantity under a dominating comparison that implies it.",
     "C02": "(S9b) a transform that carries the safe flag over through preserve_safety does so on every success return.",
@@ -327,7 +345,6 @@ ROUND9 = {
 }
 
 NOT_APPLICABLE = {
-    "C03": "equality of rendered output with a reference semantics over all programs x contexts quantifies over runtime values; its structural part (frame/capture/escape pairing, jump nesting) is decided under C05, nothing else is visible in the shape of the code, and a reference interpreter would be a different technique",
 }
 
 PENDING = "rule engine for this property is not finished / not yet validated both ways in this revision (see DESIGN.md §7); not claimed until it is"
